@@ -115,6 +115,10 @@ type Server struct {
 	// after each planned fault (e.g. "another writer gets in").
 	FaultPlan []int
 	OnFault   func(n int)
+	// OnResource (optional) runs whenever a resource client is built on top of
+	// this server (dynamic.Interface.Resource): a hook for "something else
+	// happens while the caller constructs its client".
+	OnResource func(gvr schema.GroupVersionResource)
 
 	// Mu serialises the requests (the verbs may be called from several
 	// goroutines: concurrent syncs, per-revision hook calls).
@@ -194,6 +198,9 @@ func (s *Server) Writes() []Req {
 func (s *Server) ResetLog() { s.Log = nil }
 
 func (s *Server) Resource(gvr schema.GroupVersionResource) dynamic.NamespaceableResourceInterface {
+	if f := s.OnResource; f != nil {
+		f(gvr)
+	}
 	return &rc{s: s, gvr: gvr}
 }
 
